@@ -15,7 +15,13 @@ use serde::de::DeserializeOwned;
 use serde::Serialize;
 use serde_json::{json, Value};
 
+/// Root of the verification tree. `VERIF_OUT_DIR` redirects run-time outputs (evidence,
+/// replays) for scratch runs (sensitivity experiments); inputs always come from /verif.
 pub const VERIF_DIR: &str = "/verif";
+
+pub fn out_dir() -> String {
+    std::env::var("VERIF_OUT_DIR").unwrap_or_else(|_| VERIF_DIR.to_string())
+}
 
 #[derive(Clone, Copy, PartialEq, Eq, Debug)]
 pub enum Tier {
@@ -339,7 +345,7 @@ pub fn write_replay<C: Serialize>(ctx: &Ctx, sub: &str, case: &C, failure: &Fail
     let case_json = serde_json::to_value(case).unwrap_or(Value::Null);
     let text = serde_json::to_string(&case_json).unwrap_or_default();
     let h = fnv64(format!("{sub}|{text}").as_bytes());
-    let dir = format!("{VERIF_DIR}/replays");
+    let dir = format!("{}/replays", out_dir());
     let _ = std::fs::create_dir_all(&dir);
     let path = format!("{dir}/{}-{h:016x}.json", ctx.prop);
     let doc = json!({
@@ -753,7 +759,7 @@ pub fn finish(ctx: &Ctx, report: Report, started: Instant) -> i32 {
         "wall_s": wall_s,
         "violations": violations.len(),
     });
-    let dir = format!("{VERIF_DIR}/evidence");
+    let dir = format!("{}/evidence", out_dir());
     let _ = std::fs::create_dir_all(&dir);
     let path = format!("{dir}/{}.json", ctx.prop);
     if let Err(e) = std::fs::write(&path, serde_json::to_string_pretty(&evidence).unwrap()) {
